@@ -24,8 +24,8 @@ PROP = {
     "level_text": "Kernel-checked theorems (closed under the global context) over a byte-level model of the exchange store keys (keys.go) and of the pagination routines: for ALL histories of create / cancel / set-external-id / settlement (incl. partial fill) / market closure / payment create-accept-reject-cancel-retarget shorter than 2^64-1 operations, every open order is listed exactly once (ascending ids) in its market, owner, asset and all-orders lookups and under its external id, nothing else is listed, index type bytes equal the order type, ids strictly increase, external ids are unique per market, payments are unique per (source, external id) and listed only under their current target; for every strictly sorted prefix store, hit test with non-empty hit keys, limit >= 1 (no uint64 overflow), direction and after-order bound, following next_key and paging by offsets both return each matching entry exactly once in order and count_total is their number. Two statements are false of the faithful model and are proved refuted: reverse key paging of payments-by-source drops the payment with the empty external id (known finding), and the pre-fix by-asset / after-order code (reverts of c4d7ece23 / cd8a0fb50). Each run executes histories through the real message router and compares, after every step, all ten listing endpoints of the real gRPC query server with each other, with GetOrder/GetPayment and with the model, and replays paging sessions (limits 1..n+1, key and offset mode, both directions, type and after-order filters incl. 0, a middle id, the max id and 2^64-1, limit 0 and 2^64-1) evaluated inside Coq.",
     "level_note": "Trusted: Coq kernel + vm_compute; the hand transcriptions Exchange/KV.v, Exchange/Index.v, Exchange/Paging.v (order/payment VALUES are structured, not protobuf bytes; the SDK store/prefix-store/iterator semantics and query.Paginate/FilteredPaginate are modelled); the Go harness' projection (order = type, market, owner, asset denom+amount, external id; payment = source, external id, target, bbb amount; listed orders are compared with GetOrder by protobuf bytes in Go). No axioms. Funds, holds, fees, permissions, commitments and market-id allocation are not modelled here.",
     "technique": "Coq proof (store invariants by induction over histories; pagination by induction over pages) of a Gallina byte-level model + differential correspondence and property checker evaluated in Coq on real-code traces",
-    "coq_files": ["Exchange/KV.v", "Exchange/Index.v", "Exchange/Paging.v", "Proofs/KVProofs.v", "Proofs/IndexProofs.v",
-                  "Proofs/PaymentProofs.v", "Proofs/PagingProofs.v", "Proofs/C13Glue.v", "Corr/CorrBase.v", "Corr/C13.v"],
+    "coq_files": ["Exchange/KV.v", "Exchange/Index.v", "Exchange/Paging.v", "Exchange/Commit.v", "Proofs/KVProofs.v", "Proofs/IndexProofs.v",
+                  "Proofs/PaymentProofs.v", "Proofs/PagingProofs.v", "Proofs/PagingSdkProofs.v", "Proofs/C13Glue.v", "Corr/CorrBase.v", "Corr/C13.v"],
     "rule": "histories of 14-27 operations over 2 markets, 3 owners, asset denoms aaa/aaab/bbb (prefixes of each other on purpose), external ids from a pool of 5 plus empty/100/101-byte ones, payments incl. empty external ids; a history (= one case) is non-trivial when it has accepted operations and ends with open orders or payments; distinct = distinct operation/outcome sequences; the number of distinct paging-session shapes (endpoint, type filter, after bound, direction, mode, size) is reported separately as stats.distinct_session_shapes",
     "assumptions": ["store iteration is ascending bytewise key order and a prefix store shows exactly the keys with that prefix (cosmossdk.io/store), as transcribed in Exchange/KV.v",
                     "histories are shorter than 2^64-1 operations (nextOrderID is uint64 and wraps)",
